@@ -91,14 +91,16 @@ CHECKS = {
 
 # Additions made after the independently seeded changes (DESIGN 8.2); appended to level_claimed.text.
 EXTRA = {
- "C01": "Also at L2: monomorphic (ALT=.) records over every row of {hom-ref, missing}, symbolic / indel / '*' alleles, an explicit --precision 0/1/6/17 without projection (still exact integers), a list naming one sample twice, and the list written grouped by population (order unlike the column order) on a call set that no permutation of the samples maps onto itself.",
- "C03": "Every ordered pair of 110 (shape,target) projections run back to back on one thread (call histories of length 2). At L2 every wrong-dimensionality target that agrees with the source on shared axes (prefixes, suffixes, an axis dropped / appended / prepended / doubled) must be rejected.",
- "C05": "Every basis spectrum and every spectrum with an exactly-zero mirror pair on all shapes with <=30 (thorough 52) cells x 4 fills; every ordered pair of those shapes folded back to back on one thread (call histories of length 2).",
- "C07": "The consumer receives the bytes through every transport {stdin regular file, stdin real pipe, path of a regular file, path of a FIFO, /dev/stdin over a pipe}; -o onto a longer pre-existing file; a size ladder of 600..150 000 cells (thorough 1.2 M) through both formats at L1 and through view | view -O npy | view at L2 with every value compared exactly.",
- "C09": "Seven naming schemes for sample names and labels (numeric names in non-lexicographic order, labels with blanks sharing a first word, prefix / case-differing / numeric labels, a label equal to a sample name, names with blanks, non-ASCII); samples files with LF, CRLF, no final newline and mixed endings; an absent sample at every position of every list of 1..4 entries; verbatim repeated entries; contradictory lists (accepted: an error, or the first-label or last-label assignment).",
- "C10": "Streams of length 2..3 additionally with all records at one contig:position, and (without corrupt lines) as BCF whose header lists the contigs against their IDX order; cohorts of 60/90/128/200 samples x -p in {1,20,n/2,n-5,n}: finite entries, mass + skipped = records.",
- "C11": "Projection set-ups (2,2), (4,1), (0,2), (3,0), (0,0) chromosomes; the number of observations must equal the number of records.",
- "C12": "For the small call sets also: ten file names (no, neutral, matching and misleading extensions) and the transports real pipe on stdin, FIFO by path, /dev/stdin. For the large call set stored BGZF blocks whose compressed first block is 8, 16, 32 and 64 KiB.",
+ "C01": "Also at L2: monomorphic (ALT=.) records over every row of {hom-ref, missing}, symbolic / indel / '*' alleles, an explicit --precision 0/1/6/17 without projection (still exact integers), a list naming one sample twice, and the list written grouped by population (order unlike the column order) on a call set that no permutation of the samples maps onto itself. Verbosity flags -q/-v/-vv/-vvv; inputs by path under conventional file names; shapes of 4 225 and 21 141 entries; a contradictory list entry (error, first- or last-label assignment).",
+ "C02": "Three larger cohorts (30 samples in 3 populations projected to 11x11x9 = 1 089 entries, 70 in 2 to 67x63 = 4 221, 24 in one) with every printed value compared.",
+ "C03": "Every ordered pair of 110 (shape,target) projections run back to back on one thread (call histories of length 2). At L2 every wrong-dimensionality target that agrees with the source on shared axes (prefixes, suffixes, an axis dropped / appended / prepended / doubled) must be rejected. Ladder sizes 64..170 in the quick tier; every ordered pair of nine sizes 60..2000 on a freshly spawned thread (growth-order histories); two-axis projections of 173/191/229 chromosomes; spectra whose total is exactly zero and spectra scaled by 1e-18.",
+ "C05": "Every basis spectrum and every spectrum with an exactly-zero mirror pair on all shapes with <=30 (thorough 52) cells x 4 fills; every ordered pair of those shapes folded back to back on one thread (call histories of length 2). `fold --output FILE` onto a fresh path and onto a longer existing file.",
+ "C07": "The consumer receives the bytes through every transport {stdin regular file, stdin real pipe, path of a regular file, path of a FIFO, /dev/stdin over a pipe}; -o onto a longer pre-existing file; a size ladder of 600..150 000 cells (thorough 1.2 M) through both formats at L1 and through view | view -O npy | view at L2 with every value compared exactly. -o onto the input file itself.",
+ "C08": "Additionally the probe record as a monomorphic (ALT=.) record for all strings over {., 0}, and 105 strings with allele indices 255..4294967295 in the text path.",
+ "C09": "Seven naming schemes for sample names and labels (numeric names in non-lexicographic order, labels with blanks sharing a first word, prefix / case-differing / numeric labels, a label equal to a sample name, names with blanks, non-ASCII); samples files with LF, CRLF, no final newline and mixed endings; an absent sample at every position of every list of 1..4 entries; verbatim repeated entries; contradictory lists (accepted: an error, or the first-label or last-label assignment). Labels containing '='; the samples file read from a named pipe.",
+ "C10": "Streams of length 2..3 additionally with all records at one contig:position, and (without corrupt lines) as BCF whose header lists the contigs against their IDX order; cohorts of 60/90/128/200 samples x -p in {1,20,n/2,n-5,n}: finite entries, mass + skipped = records. A tenth symbol: the record without genotypes (FORMAT without GT / no FORMAT field), in VCF and BCF; streams of length <=2 x modes x {-q,-qq,-v,-vv} keep exit status and stdout.",
+ "C11": "Projection set-ups (2,2), (4,1), (0,2), (3,0), (0,0) chromosomes; the number of observations must equal the number of records. At L2 a 150-sample cohort under -p 100 in all 24 orders of four records, and a GT-less and a decorated record in the permutation set.",
+ "C12": "For the small call sets also: ten file names (no, neutral, matching and misleading extensions) and the transports real pipe on stdin, FIFO by path, /dev/stdin. For the large call set stored BGZF blocks whose compressed first block is 8, 16, 32 and 64 KiB. A fourth small call set of unusual records (monomorphic with missing calls, no FORMAT field, FORMAT without GT).",
  "C13": "Spectra with totals below one, exactly one and within 1e-6 of one, single-entry spectra, and three spectra with more than 4096 entries. Library layer: breadth-first search over sequences of real operations {marginalize one / two axes, project one axis by -1 / all axes to 1, mask, normalize, fold} on the live object from five initial spectra to depth 4 (thorough 5); after every transition shape, element count, every value by flat position and through multi-index access, the total and every axis sum are compared with the reference (about 3 200 states, 13 800 transitions quick).",
  "C14": "Monomorphic entries also at 1e17 and 1e150 (values next to which the polymorphic mass vanishes in floating point).",
  "C15": "Every reader-matrix file is additionally read in 1-, 7- and 13-byte chunks; `view -O npy` to a piped stdout for spectra whose binary values contain 0x0A bytes.",
